@@ -92,6 +92,7 @@ class HostileRun:
         self.w.patch()
         self.w.start_manager()
         w = self.w
+        w.quiesce_limit = 6000      # (a burst of 300 connections takes about a thousand rounds to be worked off)
         # bystanders
         self.mon = Actor(w, "mon")
         self.mon.open()
@@ -316,6 +317,25 @@ class HostileRun:
                 a.leave(way)
             self.t(f"all {n} close ({way}) at the same instant")
 
+    def op_churn(self, case=None):
+        """one offender after the other connects and leaves again: never more than a few connections are open,
+        but many hundreds have been accepted over the life of the manager"""
+        ch = self.ch
+        n = case["n"] if case else ch.choose("churn.n", [150, 400, 950, 1100])
+        way = ch.choose("churn.way", ["fin", "rst", "disconnect"])
+        self.t(f"{n} clients connect and leave one after the other ({way})")
+        for i in range(n):
+            a = Actor(self.w, f"c{self.n_act}")
+            self.n_act += 1
+            a.open()
+            a.handshake("v2v1", req_id=0, allow_multiple=True)
+            self.w.quiesce()
+            if way == "disconnect":
+                a.disconnect()
+            a.leave("fin" if way == "disconnect" else way)
+            self.w.quiesce()
+        self.res.probes[f"churn_{n}"] += 1
+
     def op_pair_fail(self, case=None):
         """two clients fail in the same round / same delivery, every service order by shuffle"""
         ch = self.ch
@@ -363,8 +383,8 @@ class HostileRun:
             self.p_sent.append(self.pub.sent[-1])
 
     # ------------------------------------------------------------------ run
-    OPS = [(6, "hdr"), (4, "ctl"), (4, "cut"), (2, "garbage"), (3, "msgtype"), (1, "burst"),
-           (3, "pair"), (4, "bystander"), (2, "sweep")]
+    OPS = [(12, "hdr"), (8, "ctl"), (8, "cut"), (4, "garbage"), (6, "msgtype"), (2, "burst"),
+           (6, "pair"), (8, "bystander"), (4, "sweep"), (1, "churn")]
 
     def one_op(self):
         ch = self.ch
@@ -385,6 +405,10 @@ class HostileRun:
                 self.op_burst()
         elif k == "pair":
             self.op_pair_fail()
+        elif k == "churn":
+            if not self.did_burst:
+                self.did_burst = True
+                self.op_churn()
         elif k == "sweep":
             self.op_type_sweep()
         else:
@@ -399,7 +423,8 @@ class HostileRun:
             ch = self.ch
             if self.forced:
                 f = self.forced
-                {"hdr": self.op_hdr_boundary, "cut": self.op_cut_close, "pair": self.op_pair_fail}[f["op"]](f)
+                {"hdr": self.op_hdr_boundary, "cut": self.op_cut_close, "pair": self.op_pair_fail,
+                 "churn": self.op_churn}[f["op"]](f)
                 for _ in range(3):
                     self.w.step()
             n_ops = ch.pick("host.nops", 12) + (0 if self.forced else 2)
@@ -561,6 +586,8 @@ def det_cases(tier):
         for k2 in kinds:
             for rep in range(6):
                 cases.append(dict(op="pair", k1=k1, k2=k2, rep=rep))
+    # many hundreds of connections over the life of one manager, a few at a time
     if tier == "quick":
         cases = cases[::23]
+    cases.append(dict(op="churn", n=1100))
     return cases
